@@ -16,6 +16,10 @@ type C18 struct{}
 func (C18) ID() string    { return "C18" }
 func (C18) Level() string { return "exploration" }
 
+// NonReplayIsViolation: an outcome that varies between executions of the same
+// scenario is exactly what C18 forbids.
+func (C18) NonReplayIsViolation() bool { return true }
+
 func (C18) Describe() CheckInfo {
 	return CheckInfo{
 		Rule: "Four seeded sub-checks. (a) run-to-run determinism: a scenario of the C10/C11/C12/C19 generators is executed in 3 fresh yq processes with different GOMAXPROCS, sandbox paths and PIDs; stdout, exit, final files and masked stderr must be identical (O18.1). (b) history independence: a history of 10-40 evaluations (stream / all-at-once / string APIs, also failing ones) over a pool of 6-12 jobs shares one parser, cached expression trees and pooled decoder/encoder instances inside one libsim process; every step must equal the same job alone in a fresh process (O18.2). (c) interleavings: 2-4 evaluations with private objects run as goroutines of which exactly one is runnable; a seeded choice list (or run-to-completion with 1-3 pre-emptions) decides every hand-off at operator dispatch, lexer token, parse phase, decode/print iteration and every Read/Write; every task must return its solo result (O18.3). (d) the same task pools free-running in a -race build (not deterministic simulation, labelled so): no race report (O18.4). Non-trivial = a history of >= 2 steps, an interleaving with >= 1 switch between tasks, or a repeated process run; distinct = distinct (sub-check, schedule signature / trace signature, result hash).",
@@ -47,6 +51,24 @@ func genLibInput(r *Rand, format string, k int) []byte {
 }
 
 func genLibJob(r *Rand, k int, allowLoad bool) LibJob {
+	return genThemedLibJob(r, k, allowLoad, "")
+}
+
+func genThemedLibJob(r *Rand, k int, allowLoad bool, theme string) LibJob {
+	if theme != "" && r.Chance(3, 4) {
+		j := LibJob{ErrAt: -1}
+		j.API = Pick(r, []string{"stream", "stream", "stream", "all", "string", "stringall", "parse"})
+		j.InFmt = Pick(r, []string{"yaml", "yaml", "yaml", "json"})
+		j.OutFmt = Pick(r, []string{"yaml", "yaml", "json0", "props"})
+		fs := GenMultiFiles(r.Fork("in"), MultiOpts{MaxFiles: 1, MaxDocs: 3, Format: j.InFmt, PlainOnly: true})
+		j.Input = Bytes(fs[0].Bytes())
+		j.DecSlot, j.EncSlot = r.Intn(2), r.Intn(2)
+		j.Expr = Pick(r, ExprThemes[theme])
+		if (j.API == "stream" || j.API == "all") && r.Chance(1, 3) {
+			j.Chunks = genChunks(r)
+		}
+		return j
+	}
 	j := LibJob{ErrAt: -1}
 	j.API = Pick(r, []string{"stream", "stream", "stream", "stream", "all", "all", "string", "stringall", "stream"})
 	j.InFmt = Pick(r, []string{"yaml", "yaml", "yaml", "yaml", "yaml", "json", "json", "props", "csv", "xml", "toml", "lua"})
@@ -162,6 +184,9 @@ func (C18) Generate(c *Ctx, r *Rand, index int) *Scenario {
 		if rs.Chance(1, 12) {
 			sc = genFrontMatterScenario(r.Fork("fm"))
 			src = "FM"
+		} else if rs.Chance(1, 6) {
+			sc = genMapOrderScenario(r.Fork("maporder"))
+			src = "MAPORDER"
 		} else {
 			sc = CheckByID(src).Generate(c, r.Fork("proc"), index)
 		}
@@ -175,20 +200,28 @@ func (C18) Generate(c *Ctx, r *Rand, index int) *Scenario {
 		rp := r.Fork("pool")
 		n := rp.Range(6, 12)
 		lib := &LibScenario{Mode: "history"}
+		theme := ""
+		if rp.Chance(1, 2) {
+			theme = Pick(rp, ExprThemeNames)
+		}
 		for k := 0; k < n; k++ {
-			lib.Jobs = append(lib.Jobs, genLibJob(rp.Fork("job"+strconv.Itoa(k)), k, true))
+			lib.Jobs = append(lib.Jobs, genThemedLibJob(rp.Fork("job"+strconv.Itoa(k)), k, true, theme))
 		}
 		for i, steps := 0, rp.Range(10, 40); i < steps; i++ {
 			lib.History = append(lib.History, rp.Intn(n))
 		}
-		return &Scenario{Kind: "lib", Lib: lib, Meta: map[string]any{"sub": "history"}}
+		return &Scenario{Kind: "lib", Lib: lib, Meta: map[string]any{"sub": "history", "theme": theme}}
 	case 2, 3:
 		rp := r.Fork("pool")
 		n := rp.Range(2, 4)
 		lib := &LibScenario{Mode: "interleave"}
 		loadHeavy := rp.Chance(1, 3)
+		theme := ""
+		if !loadHeavy && rp.Chance(1, 2) {
+			theme = Pick(rp, ExprThemeNames)
+		}
 		for k := 0; k < n; k++ {
-			j := genLibJob(rp.Fork("job"+strconv.Itoa(k)), k, true)
+			j := genThemedLibJob(rp.Fork("job"+strconv.Itoa(k)), k, true, theme)
 			if loadHeavy && len(j.Files) == 0 {
 				j = genLoadJob(rp.Fork("load"+strconv.Itoa(k)), k)
 			}
@@ -277,7 +310,7 @@ func (C18) Judge(c *Ctx, sc *Scenario) []Violation {
 		if strings.HasPrefix(detail, "race at=") {
 			class = oracle + " race" // which access pair is reported first varies from run to run
 		}
-		vs = append(vs, Violation{Prop: "C18", Oracle: oracle, Sig: sig, Class: class, Msg: msg})
+		vs = append(vs, Violation{Prop: "C18", Oracle: oracle, Sig: sig, Class: class, Msg: msg, Probabilistic: strings.HasPrefix(detail, "race at=") || oracle == "O18.1"})
 	}
 	if !c.Quiet {
 		c.Count("subcheck." + sub)
@@ -445,4 +478,39 @@ func raceSite(stderr string) string {
 		}
 	}
 	return "unknown"
+}
+
+// genMapOrderScenario aims repetition at the places where Go's randomised map
+// iteration could leak into the output (the simulator cannot own that source):
+// operators that build or merge maps from ragged rows, variables, key sets.
+func genMapOrderScenario(r *Rand) *Scenario {
+	g := &DocGen{R: r.Fork("doc"), Plain: true}
+	doc := g.Doc(DocID(r, 0, 0))
+	rows := vSeq()
+	for i, n := 0, r.Range(3, 6); i < n; i++ {
+		it := vMap()
+		it.Set("k", vStr(Pick(r, wordPool)))
+		for _, xk := range []string{"v", "w", "u", "t", "s", "q", "p"} {
+			if i == 0 && xk != "v" {
+				continue
+			}
+			if r.Chance(1, 2) {
+				it.Set(xk, vInt(r.Range(0, 9)))
+			}
+		}
+		rows.Kids = append(rows.Kids, it)
+	}
+	doc.Set("e", rows)
+	expr := Pick(r, []string{
+		".e | pivot", "[.e[] | keys] | flatten | unique", ".e | group_by(.k)", ".e[] as $i ireduce ({}; . * $i)", ".e | map(to_entries)", ".e | unique_by(.k)",
+		".e | map(with_entries(.value |= . + 1))", ".a as $a | .b as $b | .c as $c | .d as $d | [$a, $b, $c, $d]", "sort_keys(..)", ".e | map(keys)", ".e[0] * .e[1] * .e[2]", "[.e[] | to_entries[] | .key] | unique",
+		".e | map(pick([\"w\", \"u\", \"t\", \"k\"]))", ".e | (.[0] | keys) as $k | map(pick($k))", ".e | map(omit([\"k\"]))", "to_entries | map(.key)", ".e | pivot | to_entries",
+	})
+	out := Pick(r, []string{"-o=json", "-o=yaml", "-o=props", "-o=csv"})
+	argv := []string{out, expr, "f1.yaml"}
+	if out == "-o=json" {
+		argv = []string{out, "-I0", expr, "f1.yaml"}
+	}
+	return &Scenario{Kind: "proc", Argv: argv, Files: []File{{Name: "f1.yaml", Docs: []string{doc.YAML()}, Mode: 0644}},
+		Meta: map[string]any{"expr": expr, "keep_flags": []any{out}}}
 }
